@@ -84,6 +84,7 @@ I = r"i(8|16|32|64|128|size)"
 #   inst    how the instantiating types are listed in an invocation: "list" = `pre; t1, t2, ..`, "arrows" = `pre; n1 -> t1, ..`
 #   pre     the arguments before the `;` of every invocation (white space removed)
 #   selfty  what `Self` / `self` is in the impl
+#   within  the header of the impl block every invocation must sit in (macros that define methods taking `self`)
 #   calls   Rust callee `<$int>::name` / method `$name` -> coq name of the TARGET that is its translation
 TARGETS = [
     dict(coq="buint_as_int", group="C09", path="src/buint/cast.rs", macro="buint_as_int",
@@ -103,6 +104,16 @@ TARGETS = [
          head="($BInt: ident; $($uint: ty), *)", anchor="impl<const N: usize> TryFrom<$BInt<N>> for $uint",
          fn="try_from", prim="$uint", kinds=U, conv="bits", inst="list", pre="$BInt", selfty="PVal",
          calls={"<$uint>::try_from": "try_from_buint"}),
+    dict(coq="U_to_int", group="C19", path="src/buint/numtraits.rs", macro="to_int",
+         head="{ $Digit: ident; $($name: ident -> $int: ty), * }", anchor=None, within="impl<const N: usize> ToPrimitive for $BUint<N>",
+         fn="$name", prim="$int", kinds=UI, conv="bits", inst="arrows", fnprefix="to_", pre="$Digit", selfty="buint", calls={}),
+    dict(coq="I_to_int", group="C19", path="src/bint/numtraits.rs", macro="to_int",
+         head="{ $Digit: ident; $($name: ident -> $int: ty), * }", anchor=None, within="impl<const N: usize> ToPrimitive for $BInt<N>",
+         fn="$name", prim="$int", kinds=I, conv="bits", inst="arrows", fnprefix="to_", pre="$Digit", selfty="bint", calls={}),
+    dict(coq="I_to_uint", group="C19", path="src/bint/numtraits.rs", macro="to_uint",
+         head="{ $($name: ident -> $uint: ty), * }", anchor=None, within="impl<const N: usize> ToPrimitive for $BInt<N>",
+         fn="$name", prim="$uint", kinds=U, conv="bits", inst="arrows", fnprefix="to_", pre="", selfty="bint",
+         calls={"$name": "U_to_int"}),
 ]
 GROUPS = {}
 for _t in TARGETS:
@@ -348,6 +359,10 @@ def macro_body(txt, tgt):
         die("%s: no instantiation of macro %s found" % (path, name))
     for m in uses:
         u = m.group(1)
+        if tgt.get("within"):                              # the impl block the invocation sits in (it fixes what `self` is)
+            impls = [x for x in re.finditer(r"\bimpl\b", txt[:m.start()])]
+            if not impls or not re.match(rx(tgt["within"]) + r"\s*\{", txt[impls[-1].start():]):
+                die("%s: %s! is not invoked inside `%s`" % (path, name, tgt["within"]))
         pre, _, lst = u.rpartition(";")
         if re.sub(r"\s+", "", pre) != tgt["pre"]:
             die("%s: %s!(%s ..): the arguments before `;` are not `%s`" % (path, name, pre.strip(), tgt["pre"]))
